@@ -58,4 +58,33 @@ example : maxAllowedStep (smul 5 [0, 0]) (smul 5 [1, -2]) (smul 5 [-1, -1]) (smu
   rw [maxAllowedStep_units 5 (by norm_num)]
   decide +kernel
 
+/-- the candidate steps do not depend on where the origin of the variables is put -/
+theorem maxAllowedStep_cand_shift (c : K) (x d lb ub : Vec K) :
+    maxAllowedStep.cand (x.map (· + c)) d (lb.map (· + c)) (ub.map (· + c)) = maxAllowedStep.cand x d lb ub := by
+  induction x generalizing d lb ub with
+  | nil => cases d <;> cases lb <;> cases ub <;> simp [maxAllowedStep.cand]
+  | cons xi xs ih =>
+    cases d with
+    | nil => simp [maxAllowedStep.cand]
+    | cons di ds =>
+      cases lb with
+      | nil => simp [maxAllowedStep.cand]
+      | cons l ls =>
+        cases ub with
+        | nil => simp [maxAllowedStep.cand]
+        | cons u us =>
+          have := ih ds ls us
+          simp only [List.map_cons, maxAllowedStep.cand] at this ⊢
+          rw [this, add_sub_add_right_eq_sub, add_sub_add_right_eq_sub]
+
+/-- **C11 (origin)** — the largest feasible step is the same after a translation of the variables and of the box -/
+theorem maxAllowedStep_shift (c : K) (x d lb ub : Vec K) (maxStep : K) (nit : Nat) :
+    maxAllowedStep (x.map (· + c)) d (lb.map (· + c)) (ub.map (· + c)) maxStep nit = maxAllowedStep x d lb ub maxStep nit := by
+  unfold maxAllowedStep
+  rw [maxAllowedStep_cand_shift c]
+
+example : maxAllowedStep ([0, 0].map (· + 7)) [1, -2] ([-1, -1].map (· + 7)) ([1, 1].map (· + 7)) (100 : ℚ) 3 = 1 / 2 := by
+  rw [maxAllowedStep_shift 7]
+  decide +kernel
+
 end Lbfgsb.C11
